@@ -993,7 +993,9 @@ def oracle(case, obs):
         fails.append({"key": "source-changed-by-copy", "what": "source subtree differs after copy at " + str(_first_diff(src0, _drop_ids(obs["src_after"])))})
     if _first_diff(_drop_ids(obs["by_before"]), _drop_ids(obs["by_after"])):
         fails.append({"key": "bystander-changed-by-copy", "what": "an unrelated entity changed during the copy"})
-    if obs["error"] is None:
+    if obs["error"] is None and "copy" not in obs:
+        fails.append({"key": "copy-returned-none", "what": f"copy of {obs['src_cls']} to {target} returned None"})
+    elif obs["error"] is None:
         cp = obs["copy"]
         mapping = _uid_map(obs["src_reloaded"], cp, {})
         _walk_cmp(obs["src_reloaded"], cp, mapping, case, "", fails, mask)
